@@ -136,3 +136,107 @@ package storagewrappers
 //@   option nosafety
 //@   ensures @served it != nil ==> typeIs(old(gmap("cache", c.cache, cacheKey)), "*storagewrappers.V2IteratorCacheEntry") && !old(markerAfter(c.cache, storage.InvalidIteratorCacheKey(storeID), as(gmap("cache", c.cache, cacheKey), "*storagewrappers.V2IteratorCacheEntry").LastModified)) && (forall i :: 0 <= i && i < len(invalidEntityKeys) ==> !old(markerAfter(c.cache, invalidEntityKeys[i], as(gmap("cache", c.cache, cacheKey), "*storagewrappers.V2IteratorCacheEntry").LastModified)))
 //@   loop 0 invariant forall j :: 0 <= j && j <= $idx ==> !old(markerAfter(c.cache, invalidEntityKeys[j], as(gmap("cache", c.cache, cacheKey), "*storagewrappers.V2IteratorCacheEntry").LastModified))
+
+
+// ------------------------------------------------------------------ C04: contextual tuples are merged into every read
+// a contextual tuple is selected by the same predicates the stores apply: object ("" = any), relation ("" = any),
+// user in the given list (empty list = any)
+//@ spec ctxMatches(k ref, o string, r string, us slice) bool = (o == "" || k.GetObject() == o) && (r == "" || k.GetRelation() == r) && (len(us) == 0 || sliceContains(us, k.GetUser()))
+
+//@ func filterTuples(tuples, targetObject, targetRelation, targetUsers) (res)
+//@   property C04
+//@   option nosafety
+//@   modifies nothing
+//@   loop 0 invariant forall i int :: 0 <= i && i < len(filtered) ==> filtered[i] != nil && ctxMatches(filtered[i].Key, targetObject, targetRelation, targetUsers)
+//@   ensures @onlyMatching forall i int :: 0 <= i && i < len(res) ==> res[i] != nil && ctxMatches(res[i].Key, targetObject, targetRelation, targetUsers)
+
+//@ func (*CombinedTupleReader).Read(c, ctx, storeID, filter, options) (res, err)
+//@   property C04
+//@   option nosafety
+//@   ensures @merged err == nil ==> innerCalled && innerErr == nil && combined && res == combinedRes
+//@   ensures @innerError innerCalled && innerErr != nil ==> err == innerErr && res == nil
+//@   monitor merge
+//@     ghost filteredTs []*openfgav1.Tuple = filteredTs
+//@     ghost staticIt iface = nil
+//@     ghost innerCalled = false
+//@     ghost innerIt iface = nil
+//@     ghost innerErr error = nil
+//@     ghost combined = false
+//@     ghost combinedRes iface = nil
+//@     before call storagewrappers.filterTuples args ts, o, r, us : assert ts == c.contextualTuplesOrderedByObjectID && o == filter.Object && r == filter.Relation && len(us) == 0
+//@     after call storagewrappers.filterTuples returning f : filteredTs = f
+//@     before call storage.NewStaticTupleIterator args ts : assert ts == filteredTs
+//@     after call storage.NewStaticTupleIterator returning it : staticIt = it
+//@     before call storage.RelationshipTupleReader.Read args _, _, s, f, o : assert s == storeID && f == filter && o == options
+//@     after call storage.RelationshipTupleReader.Read returning it, e : innerCalled = true ; innerIt = it ; innerErr = e
+//@     before call storage.NewCombinedIterator args its : assert len(its) == 2 && ((its[0] == staticIt && its[1] == innerIt) || (its[1] == staticIt && its[0] == innerIt))
+//@     after call storage.NewCombinedIterator returning r : combined = true ; combinedRes = r
+
+// a contextual tuple answers the lookup only if it has exactly the requested object, relation and user; otherwise the
+// store is asked with the same filter
+//@ func (*CombinedTupleReader).ReadUserTuple(c, ctx, store, filter, options) (res, err)
+//@   property C04
+//@   option nosafety
+//@   ensures @contextualHit !innerCalled ==> err == nil && res != nil && res.GetKey().GetUser() == filter.User && (filter.Object == "" || res.GetKey().GetObject() == filter.Object) && (filter.Relation == "" || res.GetKey().GetRelation() == filter.Relation)
+//@   ensures @fallsThrough innerCalled ==> res == innerRes && err == innerErr
+//@   monitor merge
+//@     ghost innerCalled = false
+//@     ghost innerRes *openfgav1.Tuple = nil
+//@     ghost innerErr error = nil
+//@     before call storagewrappers.filterTuples args ts, o, r, us : assert ts == c.contextualTuplesOrderedByObjectID && o == filter.Object && r == filter.Relation && len(us) == 1 && us[0] == filter.User
+//@     before call storage.RelationshipTupleReader.ReadUserTuple args _, _, s, f, o : assert s == store && f == filter && o == options
+//@     after call storage.RelationshipTupleReader.ReadUserTuple returning t, e : innerCalled = true ; innerRes = t ; innerErr = e
+
+// the userset / typed-wildcard restriction a contextual tuple must fit is the one the stores apply
+//@ spec restrFits(r ref, user string) bool = (typeIs(r.GetRelationOrWildcard(), "*openfgav1.RelationReference_Wildcard") && tuple.IsTypedWildcard(user) && tuple.GetType(user) == r.GetType()) || (typeIs(r.GetRelationOrWildcard(), "*openfgav1.RelationReference_Relation") && tuple.IsObjectRelation(user) && tuple.GetType(user) == r.GetType() && tuple.GetRelation(user) == r.GetRelation())
+
+//@ func tupleMatchesAllowedUserTypeRestrictions(t, allowedUserTypeRestrictions) (b)
+//@   property C04
+//@   option nosafety
+//@   modifies nothing
+//@   loop 0 invariant forall j int :: 0 <= j && j <= $idx ==> !restrFits(allowedUserTypeRestrictions[j], t.GetKey().GetUser())
+//@   ensures @onlyFitting b ==> tuple.GetUserTypeFromUser(t.GetKey().GetUser()) == tuple.UserSet && (exists k int :: 0 <= k && k < len(allowedUserTypeRestrictions) && restrFits(allowedUserTypeRestrictions[k], t.GetKey().GetUser()))
+//@   ensures @allFitting !b ==> tuple.GetUserTypeFromUser(t.GetKey().GetUser()) != tuple.UserSet || (forall k int :: 0 <= k && k < len(allowedUserTypeRestrictions) ==> !restrFits(allowedUserTypeRestrictions[k], t.GetKey().GetUser()))
+
+//@ func (*CombinedTupleReader).ReadUsersetTuples(c, ctx, store, filter, options) (res, err)
+//@   property C04
+//@   option nosafety
+//@   ensures @merged err == nil ==> innerCalled && innerErr == nil && combined && res == combinedRes
+//@   ensures @innerError innerCalled && innerErr != nil ==> err == innerErr && res == nil
+//@   monitor merge
+//@     ghost staticIt iface = nil
+//@     ghost innerCalled = false
+//@     ghost innerIt iface = nil
+//@     ghost innerErr error = nil
+//@     ghost combined = false
+//@     ghost combinedRes iface = nil
+//@     before call storagewrappers.filterTuples args ts, o, r, us : assert ts == c.contextualTuplesOrderedByObjectID && o == filter.Object && r == filter.Relation && len(us) == 0
+//@     before call storagewrappers.tupleMatchesAllowedUserTypeRestrictions args t, rs : assert rs == filter.AllowedUserTypeRestrictions
+//@     after call storage.NewStaticTupleIterator returning it : staticIt = it
+//@     before call storage.RelationshipTupleReader.ReadUsersetTuples args _, _, s, f, o : assert s == store && f == filter && o == options
+//@     after call storage.RelationshipTupleReader.ReadUsersetTuples returning it, e : innerCalled = true ; innerIt = it ; innerErr = e
+//@     before call storage.NewCombinedIterator args its : assert len(its) == 2 && ((its[0] == staticIt && its[1] == innerIt) || (its[1] == staticIt && its[0] == innerIt))
+//@     after call storage.NewCombinedIterator returning r : combined = true ; combinedRes = r
+
+//@ func (*CombinedTupleReader).ReadStartingWithUser(c, ctx, store, filter, options) (res, err)
+//@   property C04
+//@   option nosafety
+//@   ensures @merged err == nil ==> innerCalled && innerErr == nil && ((combined && res == combinedRes) || (ordered && typeIs(res, "*storage.OrderedCombinedIterator") && as(res, "*storage.OrderedCombinedIterator") == orderedRes))
+//@   ensures @innerError innerCalled && innerErr != nil ==> err == innerErr && res == nil
+//@   monitor merge
+//@     ghost staticIt iface = nil
+//@     ghost innerCalled = false
+//@     ghost innerIt iface = nil
+//@     ghost innerErr error = nil
+//@     ghost combined = false
+//@     ghost combinedRes iface = nil
+//@     ghost ordered = false
+//@     ghost orderedRes *storage.OrderedCombinedIterator = nil
+//@     before call storagewrappers.filterTuples args ts, o, r, us : assert ts == c.contextualTuplesOrderedByObjectID && o == "" && r == filter.Relation
+//@     after call storage.NewStaticTupleIterator returning it : staticIt = it
+//@     before call storage.RelationshipTupleReader.ReadStartingWithUser args _, _, s, f, o : assert s == store && f == filter && o == options
+//@     after call storage.RelationshipTupleReader.ReadStartingWithUser returning it, e : innerCalled = true ; innerIt = it ; innerErr = e
+//@     before call storage.NewCombinedIterator args its : assert !options.WithResultsSortedAscending && len(its) == 2 && ((its[0] == staticIt && its[1] == innerIt) || (its[1] == staticIt && its[0] == innerIt))
+//@     after call storage.NewCombinedIterator returning r : combined = true ; combinedRes = r
+//@     before call storage.NewOrderedCombinedIterator args m, its : assert options.WithResultsSortedAscending && len(its) == 2 && ((its[0] == staticIt && its[1] == innerIt) || (its[1] == staticIt && its[0] == innerIt))
+//@     after call storage.NewOrderedCombinedIterator returning r : ordered = true ; orderedRes = r
